@@ -549,7 +549,8 @@ func (imm *ImmExp) Eval(env Env) (Exp, bool) {
 		if ok {
 			// マクロ定義を再帰的に評価します
 			// マクロ自体が評価されることを確認します
-			evalMacroExp, reduced := macroExp.Eval(env)
+			// 自己参照・相互参照する EQU で無限再帰しないよう、展開中の名前は隠します
+			evalMacroExp, reduced := macroExp.Eval(hideMacro(env, identValue))
 			return evalMacroExp, reduced // 評価されたマクロ式を返します
 		}
 		// マクロでも '$' でもない場合は、未解決の識別子 (ラベルなど) です
@@ -565,6 +566,24 @@ func (imm *ImmExp) Eval(env Env) (Exp, bool) {
 }
 func (imm *ImmExp) TokenLiteral() string {
 	return imm.Factor.TokenLiteral()
+}
+
+// maskedEnv は展開中のマクロ名を LookupMacro から隠す Env です。
+// (A EQU A+1 のような循環定義は未解決の識別子として残ります)
+type maskedEnv struct {
+	Env
+	name string
+}
+
+func hideMacro(env Env, name string) Env {
+	return maskedEnv{Env: env, name: name}
+}
+
+func (m maskedEnv) LookupMacro(name string) (Exp, bool) {
+	if name == m.name {
+		return nil, false
+	}
+	return m.Env.LookupMacro(name)
 }
 
 // --- 解析用のヘルパー関数 ---
